@@ -482,3 +482,7 @@ NOT_APPLICABLE = {
 # really forgetting its intervals: the same U4 obligations C10 carries are reported under C11 as well.
 PROPS["C11"]["verus"].append({"unit": U4, "fns": ["SamplingWindow::new", "SamplingWindow::reset", "BoundedArrayStats::append", "BoundedArrayStats::len", "BoundedArrayStats::clear"]})
 PROPS["C11"]["level_text"] += " The supporting window operations are carried as C11 obligations too: a fresh window (SamplingWindow::new) holds no interval and no last heartbeat, reset / clear bring the interval count back to 0, and append adds at most one interval - so stale intervals cannot stand in for fresh reports after a member was declared dead."
+# C13's step proof uses the U5 detector stubs; the U4 obligations those stubs restate (bridge table,
+# DESIGN §11) are reported under C13 as well, so that breaking one of them is a C13 alarm too.
+PROPS["C13"]["verus"].append({"unit": U4, "fns": ["FailureDetector::update_node_liveness", "FailureDetector::garbage_collect"]})
+PROPS["C13"]["level_text"] += " The detector clauses the step proof relies on are carried as C13 obligations on the real detector (U4): update_node_liveness(id) leaves id in exactly one of live / dead and nobody else's membership changes; garbage_collect leaves the live set untouched and only removes members that were dead."
